@@ -435,6 +435,7 @@ func (e *bcEngine) Exec(f []string) Result {
 	inited := false
 	fastNext := 0
 	fed := map[int]bool{}        // acknowledgement events already delivered by a "fast" broker
+	fedReq := map[int]int{}      // fast / fast2: the request event during which a fed event was (to be) delivered
 	relFired := map[int]*int32{} // fastrel: did the armed PUBREL hook fire (keyed by the PUBCOMP event)
 	extraFed := map[int]string{} // fast2: the second acknowledgement event delivered during the request event i
 	for i, ev := range evs {
@@ -477,8 +478,8 @@ func (e *bcEngine) Exec(f []string) Result {
 						if len(t) < 3 {
 							return false
 						}
-						for _, e2 := range evs[:i] {
-							t2 := strings.Split(e2, ":")
+						for k := i - 1; k >= 0; k-- { // the LATEST Subscribe with that identifier owns the waiter
+							t2 := strings.Split(evs[k], ":")
 							if t2[0] == "sub" && len(t2) > 2 && t2[2] == t[1] {
 								return atoi(t2[1]) == len(mustDesc(t[2]))
 							}
@@ -493,9 +494,17 @@ func (e *bcEngine) Exec(f []string) Result {
 					}
 				}
 				var once sync.Once
+				fired := new(int32)
+				relFired[i+1] = fired
+				fedReq[i+1] = i
+				if ack2 != nil {
+					relFired[i+2] = fired
+					fedReq[i+2] = i
+				}
 				tr.mu.Lock()
 				tr.onWrite = func(p []byte) {
 					once.Do(func() {
+						atomic.StoreInt32(fired, 1)
 						tr.feed(ack)
 						tr.waitDrained()
 						if ack2 != nil {
@@ -519,12 +528,20 @@ func (e *bcEngine) Exec(f []string) Result {
 		t := strings.Split(ev, ":")
 		if fed[i] {
 			if f, ok := relFired[i]; ok && atomic.LoadInt32(f) == 0 {
-				// fastrel was armed but no PUBREL was written (a duplicate PUBREC, a publish that had given up): the
-				// PUBCOMP arrives as an ordinary event
+				// the hook was armed but the write it waits for never reached the transport (fastrel: a duplicate PUBREC, a
+				// publish that had given up; fast / fast2: the request's write was refused): the acknowledgement arrives as an
+				// ordinary event, and the hook is disarmed so that it cannot fire on some later write
 				tr.mu.Lock()
 				tr.onWrite = nil
 				tr.mu.Unlock()
-				delete(extraFed, i-1)
+				if rq, ok := fedReq[i]; ok {
+					delete(extraFed, rq)
+				} else {
+					delete(extraFed, i-1) // fastrel: keyed by the PUBREC event
+				}
+				if pendingFast == evs[i] {
+					pendingFast = ""
+				}
 			} else {
 				t = []string{"already-fed"}
 			}
@@ -794,7 +811,21 @@ func (e *bcEngine) Exec(f []string) Result {
 	}
 	for j, cl := range calls {
 		if cl.done && cl.ret == "invalidsuback" {
-			ev := strings.SplitN(evs[cl.retEv], ":", 3)
+			// the SUBACK that ended the call: the event during which it returned, or one a fast broker fed during that event
+			src := evs[cl.retEv]
+			if !strings.HasPrefix(src, fmt.Sprintf("sa:%d:", cl.id)) {
+				src = ""
+				cands := []string{cl.fastAck}
+				for k := cl.retEv; k >= 0 && k >= cl.retEv-2; k-- {
+					cands = append(cands, extraFed[k])
+				}
+				for _, x := range cands {
+					if strings.HasPrefix(x, fmt.Sprintf("sa:%d:", cl.id)) {
+						src = x
+					}
+				}
+			}
+			ev := strings.SplitN(src, ":", 3)
 			if len(ev) == 3 && len(mustDesc(ev[2])) == cl.n {
 				props = append(props, viol("C07", "suback-count", "call %d: ErrInvalidSubAck although the SUBACK carried %d codes for %d filters", j, cl.n, cl.n))
 			}
